@@ -131,11 +131,52 @@ func c07History(c *h.Ctx, id string, r *rand.Rand) {
 	}
 	nOps := 40 + r.Intn(40)
 	version := 0
+	// half of the histories share the name tree with pending Interests (the PIT lives in the same
+	// tree): inserting and removing them must be invisible to the cache
+	withPit := r.Intn(2) == 0
+	var pend []table.PitEntry
 	for step := 0; step < nOps; step++ {
 		clock++
 		name := u.Pick(r)
 		if len(name) == 0 {
 			name = u.PickDepth(r, 1)
+		}
+		if withPit && r.Intn(5) == 0 {
+			if len(pend) > 0 && r.Intn(2) == 0 {
+				i := r.Intn(len(pend))
+				hist = append(hist, csOp{Op: "pit-remove", Name: pend[i].EncName().String()})
+				e := pend[i]
+				pend = append(pend[:i], pend[i+1:]...)
+				if pi := h.Guard(func() { cs.RemoveInterest(e) }); pi != nil {
+					fail("C07:panic:pit-remove:"+pi.Frame+":"+pi.Class, "RemoveInterest panicked: "+pi.Value, nil)
+					return
+				}
+			} else {
+				if ks := modelNames(); len(ks) > 0 && r.Intn(2) == 0 {
+					name = model[ks[r.Intn(len(ks))]].name.Clone() // an Interest for a cached name (e.g. MustBeFresh on stale Data)
+				}
+				in := &spec.Interest{NameV: name.Clone(), CanBePrefixV: r.Intn(3) == 0, MustBeFreshV: r.Intn(3) == 0}
+				hist = append(hist, csOp{Op: "pit-insert", Name: name.String(), CBP: in.CanBePrefixV, MBF: in.MustBeFreshV})
+				var e table.PitEntry
+				if pi := h.Guard(func() { e, _ = cs.InsertInterest(in, nil, uint64(1+r.Intn(3))) }); pi != nil {
+					fail("C07:panic:pit-insert:"+pi.Frame+":"+pi.Class, "InsertInterest panicked: "+pi.Value, nil)
+					return
+				}
+				dup := false
+				for _, o := range pend {
+					if o == e {
+						dup = true
+					}
+				}
+				if e != nil && !dup {
+					pend = append(pend, e)
+				}
+			}
+			c.Count("pit_operations", 1)
+			if !checkSet("a PIT operation") {
+				return
+			}
+			continue
 		}
 		switch k := r.Intn(20); {
 		case k < 9: // insert / refresh
